@@ -237,4 +237,56 @@ theorem cc_run (s : CCScanner) (pre : List Op) (hr : CCRel s pre) (ops : List Op
     refine ⟨s2, ?_, by simpa using r2⟩
     simp [ccRun, h1, h2, bind, Except.bind, expected14]
 
+/-! ### data independence: helper lemmas for Props/C08 -/
+
+theorem msbStep_relabel (f : Nat → Nat) (c : Nat) (hc : c < 16) (acc : Option (Nat × Nat)) (op : Op) :
+    msbStep c (acc.map fun p => (p.1, f p.2)) (relabelOp f op) = (msbStep c acc op).map fun p => (p.1, f p.2) := by
+  cases op with
+  | reset => simp [msbStep, relabelOp]
+  | feed b =>
+    simp only [msbStep, relabelOp, relabelB, ccOn]
+    by_cases h : 176 ≤ b.status ∧ b.status < 192
+    · simp only [h, and_self, if_true]
+      by_cases h2 : ((b.status == 176 + c) && decide (b.d1 < 32)) = true <;> simp [h2]
+    · have : (b.status == 176 + c) = false := by
+        simp only [beq_eq_false_iff_ne]; omega
+      simp [h, this]
+
+theorem lastMsb_relabel (f : Nat → Nat) (c : Nat) (hc : c < 16) (past : List Op) (acc : Option (Nat × Nat)) :
+    (past.map (relabelOp f)).foldl (msbStep c) (acc.map fun p => (p.1, f p.2))
+      = (past.foldl (msbStep c) acc).map fun p => (p.1, f p.2) := by
+  induction past generalizing acc with
+  | nil => rfl
+  | cons op ops ih => simp only [List.map_cons, List.foldl_cons, msbStep_relabel f c hc, ih]
+
+theorem lastMsb_lt (c : Nat) (past : List Op) (hp : ∀ op ∈ past, op.Valid) (acc : Option (Nat × Nat))
+    (ha : ∀ p, acc = some p → p.2 < 128) : ∀ p, past.foldl (msbStep c) acc = some p → p.2 < 128 := by
+  induction past generalizing acc with
+  | nil => simpa using ha
+  | cons op ops ih =>
+    simp only [List.foldl_cons]
+    apply ih (fun o ho => hp o (List.mem_cons_of_mem _ ho))
+    intro p hpp
+    cases op with
+    | reset => simp [msbStep] at hpp
+    | feed b =>
+      have hv : b.Valid := hp (.feed b) (List.mem_cons_self ..)
+      simp only [msbStep] at hpp
+      split at hpp
+      · cases hpp; exact hv.2.2.2
+      · exact ha p hpp
+
+theorem relabelB_valid (f : Nat → Nat) (hf : ∀ v, v < 128 → f v < 128) (b : Bytes) (hb : b.Valid) : (relabelB f b).Valid := by
+  unfold relabelB; split
+  · exact ⟨hb.1, hb.2.1, hb.2.2.1, hf _ hb.2.2.2⟩
+  · exact hb
+
+theorem relabel_valid (f : Nat → Nat) (hf : ∀ v, v < 128 → f v < 128) (past : List Op) (hp : ∀ op ∈ past, op.Valid) :
+    ∀ op ∈ past.map (relabelOp f), op.Valid := by
+  intro op ho
+  obtain ⟨o, hin, rfl⟩ := List.mem_map.1 ho
+  cases o with
+  | reset => trivial
+  | feed b => exact relabelB_valid f hf b (hp _ hin)
+
 end Midi
